@@ -37,7 +37,7 @@ type runner struct {
 	r *vlib.Run
 }
 
-const rule = "distinct_nontrivial = distinct (topology kind, variant, size, signedness, TC-all, qname-min level, restart parameters, firewall mode, outbound budget) tuples for which at least one client query caused upstream packets at the scripted servers; evaluations = client replies judged + off/shadow pairs compared + over-budget replies and follow-ups judged + DNSSEC work-API cases judged"
+const rule = "distinct_nontrivial = distinct (topology kind, variant, size, signedness, TC-all, qname-min level, restart parameters, firewall mode, outbound budget, fallback pool configured + budget the stack was built to cross) tuples for which at least one client query caused upstream packets at the scripted servers; evaluations = client replies judged + off/shadow pairs compared (without and with a fallback pool) + over-budget replies and follow-ups judged + enforce replies of the fallback-pool stacks judged + DNSSEC work-API cases judged"
 
 func main() {
 	r := vlib.Start("C12", "exploration")
@@ -51,6 +51,9 @@ func main() {
 	r.Assume("a packet overrun or an off/shadow difference is reported only if it reproduces on a second fresh stack with the same configuration (the resolver races servers; the loopback ports are shared with other processes); an overrun that does not reproduce makes the run inconclusive")
 	r.Assume("restarts inside one request tree (parent-detection restart, retry without minimisation, descent through a delegation cached in mid-tree) are recognised in the packet log by behaviour only a restart explains (restart.go: the scripted authority is asked again after its referral was delivered; a longer name is asked where every attempt for the minimised one failed on the wire; a question of the client's type reaches the server only the cached delegation names); sdns has no counter for them. They are counted on stacks with ipv6access off only")
 	r.Assume("restart kinds: the outbound budgets of the shadow, enforce-small and enforce-mid stacks are drawn from [packets before the first post-restart packet, packets of the whole tree - 1] as observed on the firewall-off stack of the same topology (same seed, same index); the verdicts applied are the unchanged per-query ones")
+	r.Assume("fallback-pool stacks (pool.go): `fallbackservers` names one scripted open recursive server that answers every question (the namespace model's end-to-end answer, or a fixed marker record) and logs every packet in the same packet log as the authorities; packets it receives count as upstream transport attempts of the request tree (sdns's failover middleware debits them as outbound attempts), so they are part of the per-query packet count that is held against max_outbound_queries")
+	r.Assume("fallback-pool stacks run with ipv6access off: there is no optional (best-effort) work, every budget crossing a tree records in enforce mode is a refused REQUIRED debit; a tree that recorded one and is answered anything but SERVFAIL after the pool was asked the client's own question is reported (confirmed on a second fresh stack). A crossing of only the outbound budget on a query with packets after the reply is not judged (the refused debit may belong to an attempt that was still in flight)")
+	r.Assume("fallback-pool stacks: the non-outbound budget of enforce+pool/<dimension> is the value under which the shadow+pool tree of the same topology recorded that dimension as crossed (all other budgets default); the outbound budget of enforce+pool/outbound is a small draw or is placed at the hand-over observed on off+pool (packets logged before the pool was first asked the client's question: exactly that many, or one more). The verdicts applied are the per-query ones")
 	run := &runner{r: r}
 
 	if raw := r.ReplayCase(); raw != nil {
@@ -107,7 +110,7 @@ func main() {
 	// parent: striped batches in parallel child processes (one live pipeline
 	// per process; most of a case's wall time is sdns's fixed 2 s pause before
 	// detached IPv6 enrichment, not CPU)
-	workers := 10
+	workers := 12
 	if v, err := strconv.Atoi(os.Getenv("C12_WORKERS")); err == nil && v > 0 {
 		workers = v
 	}
@@ -178,6 +181,28 @@ func main() {
 	}
 	r.Require("restart/parent/queries_via_alias", 2)
 	r.Require("restart/fallback/queries_via_alias", 2)
+	// the recursion firewall next to a configured fallback pool (pool.go)
+	r.Require("pool/stacks/off", int64(nTopo))
+	r.Require("pool/stacks/shadow", int64(nTopo))
+	r.Require("pool/stacks/enforce", int64(nTopo*2))
+	r.Require("pool/enforce_replies_judged", int64(nTopo*3))
+	r.Require("pool/non_outbound_budget_placed_from_shadow_crossing", int64(nTopo/2))
+	r.Require("pool/enforce_over_budget_servfail_pool_not_asked", int64(nTopo))
+	r.Require("pool/enforce_over_budget_servfail_pool_not_asked_outbound_budget_had_room", int64(nTopo/2))
+	r.Require("pool/enforce_over_budget_servfail_pool_not_asked/outbound", int64(nTopo/3))
+	r.Require("pool/enforce_over_budget_servfail_pool_not_asked/internal", int64(nTopo/12))
+	r.Require("pool/enforce_over_budget_servfail_pool_not_asked/dnssec", int64(nTopo/6))
+	for _, m := range []string{"off", "shadow", "enforce"} {
+		r.Require("pool/queries_handed_to_pool/"+m, int64(max(3, nTopo/24)))
+		r.Require("pool/queries_answered_by_pool/"+m, int64(max(3, nTopo/24)))
+	}
+	r.Require("pool/control_ordinary_failure_uncrossed_tree_answered_by_pool", 2)
+	r.Require("pool/outbound_budget_placed_exactly_at_handover", 3)
+	r.Require("pool/enforce_budget_spent_by_failing_primary_pool_attempt_refused", 2)
+	r.Require("pool/off_shadow_pairs_compared", int64(nTopo*2/3))
+	r.Require("pool/off_shadow_pairs_compared_with_shadow_crossing", int64(nTopo/3))
+	r.Require("pool/off_shadow_pairs_compared_with_pool_engaged", int64(max(3, nTopo/24)))
+	r.Require("pool/off_shadow_pairs_compared_with_pool_engaged_and_shadow_crossing", int64(max(3, nTopo/32)))
 	r.Require("workapi_cases", int64(nWork))
 	r.Require("workapi_cases_with_expensive_ops", int64(nWork/2))
 	r.Require("workapi_refusals_observed", int64(nWork/4))
